@@ -122,6 +122,11 @@ theorem odd_is_source (ps : List (Value N)) : Stdlib.odd ps = SrcStdlib.odd ps :
   · rfl
   · cases a <;> rfl
   · cases a <;> rfl
+theorem intToHex_is_source (ps : List (Value N)) : Stdlib.intToHex ps = SrcStdlib.int_to_hex ps := by
+  rcases ps with _ | ⟨a, _ | ⟨b, r⟩⟩
+  · rfl
+  · cases a <;> rfl
+  · cases a <;> rfl
 theorem pow_is_source (ps : List (Value N)) : Stdlib.pow ps = SrcStdlib.pow ps := by
   unfold Stdlib.pow SrcStdlib.pow
   rw [defaultNumber_is_source]
